@@ -323,3 +323,54 @@ Definition c10_hash (a : big) : N := fold_left c10_hash_combine a c10_param_hash
 Inductive c10_base := C10_dec | C10_hex | C10_oct.
 Definition c10_stream_insert (st : list ascii * c10_base) (a : big) : list ascii * c10_base :=
   (fst st ++ c10_print a, C10_dec).
+
+(* ---------- object histories: a small instruction set over a register file of bigunsignedint<k> objects.
+   Every instruction is one C++ statement on the objects r[0..]; d, s, t may coincide (aliasing).
+     ICompound o d s    r[d] o= r[s]                 IBinary o d s t   r[d] = r[s] o r[t]
+     IIncr d            ++r[d]                       INot d s          r[d] = ~r[s]
+     IShl/IShr d s c    r[d] = r[s] << c  /  >> c    ICopy d s         r[d] = r[s]  (copy/move assignment, copy construction)
+     ISwap d s          std::swap(r[d], r[s])
+     IBuiltinU o d u    r[d] o= u  (unsigned built-in, through the converting constructor / free operator)
+     IBuiltinS o d y    r[d] o= y  (signed built-in; a negative one throws Dune::Exception)
+     IBuiltinLeft o d u r[d] = u o r[d]
+     ICmp c d s         r[d] c r[s]   (result recorded)   ICmpU c d u   r[d] c u (built-in converted by the constructor)
+   An instruction that throws records the exception and leaves EVERY register unchanged (operator/= and %= test the
+   divisor before touching *this; the constructor of the temporary throws before the operator runs). *)
+Inductive c10_cmpop := CmpLt | CmpLe | CmpGt | CmpGe | CmpEq | CmpNe.
+Inductive c10_instr :=
+  | C10_ICompound (o : c10_binop) (d s : nat) | C10_IBinary (o : c10_binop) (d s t : nat)
+  | C10_IIncr (d : nat) | C10_INot (d s : nat) | C10_IShl (d s : nat) (c : N) | C10_IShr (d s : nat) (c : N)
+  | C10_ICopy (d s : nat) | C10_ISwap (d s : nat)
+  | C10_IBuiltinU (o : c10_binop) (d : nat) (u : N) | C10_IBuiltinS (o : c10_binop) (d : nat) (y : Z)
+  | C10_IBuiltinLeft (o : c10_binop) (d : nat) (u : N)
+  | C10_ICmp (c : c10_cmpop) (d s : nat) | C10_ICmpU (c : c10_cmpop) (d : nat) (u : N).
+Inductive c10_event := C10_EvBool (b : bool) | C10_EvMathError | C10_EvException | C10_EvOutOfFuel | C10_EvOutOfBounds.
+Definition c10_upd {A : Type} (l : list A) (d : nat) (v : A) : list A :=
+  if Nat.ltb d (length l) then firstn d l ++ v :: skipn (S d) l else l.
+Definition c10_cmp_apply (c : c10_cmpop) (a b : big) : bool :=
+  match c with CmpLt => c10_lt a b | CmpLe => c10_le a b | CmpGt => c10_gt a b | CmpGe => c10_ge a b
+             | CmpEq => c10_eq a b | CmpNe => c10_ne a b end.
+Definition c10_event_of (r : c10_res) : c10_event :=
+  match r with C10_MathError => C10_EvMathError | C10_Exception => C10_EvException
+             | C10_OutOfBounds => C10_EvOutOfBounds | _ => C10_EvOutOfFuel end.
+Definition c10_step (n : nat) (n2 fuel : nat) (i : c10_instr) (st : list big * list c10_event) : list big * list c10_event :=
+  let '(rs, ev) := st in
+  let r x := nth x rs (c10_zero n) in
+  let fin d (x : c10_res) := match x with C10_Ok v => (c10_upd rs d v, ev) | e => (rs, ev ++ [c10_event_of e]) end in
+  match i with
+  | C10_ICompound o d s => fin d (c10_apply n2 fuel o (r d) (r s))
+  | C10_IBinary o d s t => fin d (c10_apply n2 fuel o (r s) (r t))
+  | C10_IIncr d => fin d (C10_Ok (c10_incr (r d)))
+  | C10_INot d s => fin d (C10_Ok (c10_not (r s)))
+  | C10_IShl d s c => fin d (C10_Ok (c10_shl (r s) c))
+  | C10_IShr d s c => fin d (c10_shr_checked (r s) c)
+  | C10_ICopy d s => fin d (C10_Ok (r s))
+  | C10_ISwap d s => (c10_upd (c10_upd rs d (r s)) s (r d), ev)
+  | C10_IBuiltinU o d u => fin d (c10_free_right n2 fuel o (r d) u)
+  | C10_IBuiltinS o d y => fin d (c10_free_right_signed n2 fuel o (r d) y)
+  | C10_IBuiltinLeft o d u => fin d (c10_free_left n2 fuel o u (r d))
+  | C10_ICmp c d s => (rs, ev ++ [C10_EvBool (c10_cmp_apply c (r d) (r s))])
+  | C10_ICmpU c d u => (rs, ev ++ [C10_EvBool (c10_cmp_apply c (r d) (c10_assign n u))])
+  end.
+Definition c10_run (n n2 fuel : nat) (prog : list c10_instr) (st : list big * list c10_event) : list big * list c10_event :=
+  fold_left (fun s i => c10_step n n2 fuel i s) prog st.
